@@ -28,7 +28,9 @@ RULE = ("one case = (problem class, data fixture, construction mode [direct | fa
         "ordered k-sequences with a repeated member, all integer count vectors with sum<=4, all binary vectors !=0, all real vectors "
         "on {0,1/4,1/2,1}^N !=0 and their rescalings x{1/2,3}; configurations: every (objective, inequality, equality) transformation "
         "triple x a cyclic walk through every weight form (None, scalar, array over the weight alphabet); non-trivial = at least two "
-        "candidates contribute or the decision is a permutation / rescaling of another one; distinct by digest of "
+        "candidates contribute or the decision is a permutation / rescaling of another one; the (decision x configuration) product "
+        "of oracle (iv) runs on every 3rd decision (quick) / on all decisions, strided to <=300 per encoding for the large cross "
+        "spaces (thorough), oracles (i)-(iii) on every decision; distinct by digest of "
         "(class, fixture, mode, decision)")
 ASSUME = ["mc/compat.py restores removed numpy names only",
           "numpy.linalg.cholesky / float arithmetic are correct (the kinship factor handed to directly constructed problems is "
@@ -60,6 +62,13 @@ def near(a, b, rel=TOL_REL, abs_=TOL_ABS):
         if not abs(u - v) <= abs_ + rel * abs(v):
             return False
     return True
+
+
+def definer(obj, name):
+    """Name of the class that defines method `name` of obj (signatures name the call site, not every heir)."""
+    fn = getattr(type(obj), name, None)
+    qn = getattr(fn, "__qualname__", None)
+    return qn.split(".")[0] if qn and "." in qn else type(obj).__name__
 
 
 def aslist(v):
@@ -195,7 +204,7 @@ def check_latent(ctx, fam, d, L, clsname, prob, enc, x, tag, case):
     xa = FX.to_array(enc, x)
     lat = prob.latentfn(xa)
     ctx.transitions += 1
-    P = clsname + ".latentfn:"
+    P = definer(prob, "latentfn") + ".latentfn:"
     require(isinstance(lat, numpy.ndarray) and lat.ndim == 1 and len(lat) == L, P + "shape",
             f"latentfn returned {type(lat).__name__} shape {getattr(lat, 'shape', None)}, the criterion has {L} components", case)
     if fam.kind == "set":
@@ -203,6 +212,9 @@ def check_latent(ctx, fam, d, L, clsname, prob, enc, x, tag, case):
     else:
         ref = fam.ref(d, c=R.contributions(enc, x, d["N"]))
     ll = lat.tolist()
+    if getattr(prob, "nlatent", L) != L:
+        # outside the property's words (it speaks about the latent vector, not its advertised size): reported, not judged
+        ctx.flag(f"observation:nlatent={prob.nlatent}-but-latent-vector-has-{L}-components:{clsname}")
     suffix = ":repeated-members" if tag == "repeat" else ""
     require(near(ll, ref), P + "definition" + suffix,
             lambda: f"{enc} decision {jx(x)}: latentfn = {ll}, definition from the data = {ref}", case)
@@ -231,7 +243,8 @@ def run_ctor(ctx, fname, n, variant, oi, part, focus=None):
     groups = {}        # contribution vector / member multiset -> [(enc, x, latent, tag, class)]
     latents = {}
     ctx.bounds.update({"n_taxa_max": max(n, ctx.bounds.get("n_taxa_max", 0)), "markers": FX.M, "traits": FX.T, "subset_kmax": 3,
-                       "integer_sum_max": 4, "real_grid": "0,1/4,1/2,1 x {1,1/2,3}", "real_support_max_when_N>4": 3})
+                       "integer_sum_max": 4, "real_grid": "0,1/4,1/2,1 x {1,1/2,3}", "real_support_max_when_N>4": 3,
+                       "eval_product_decisions": "quick: every 3rd decision; thorough: all, strided to <=300 per encoding"})
     for enc in encs:
         cn = fam.classes[enc]
         decs = decisions_for(fam, enc, U.N, U.d, tier)
@@ -256,7 +269,7 @@ def run_ctor(ctx, fname, n, variant, oi, part, focus=None):
                 ctx.evaluations += 1
                 got = []
                 ok = ctx.guard(lambda: got.append(check_latent(ctx, fam, U.d, U.L, cn, probs[k], enc, x, tag, case)),
-                               case=case, sig_prefix=cn + ".latentfn:")
+                               case=case, sig_prefix=definer(probs[k], "latentfn") + ".latentfn:")
                 key = digest((cn, fx.key(), "ctor", oi, enc, x))
                 ctx.state(key)
                 ctx.count("cls:" + cn)
@@ -273,7 +286,7 @@ def run_ctor(ctx, fname, n, variant, oi, part, focus=None):
                 latents[(enc, x)] = lat
                 ctx.outcome(digest((fname, [round(v, 9) for v in lat])))
                 gk = tuple(R.members_of(enc, x)) if fam.kind == "set" else R.contributions(enc, x, U.N)
-                groups.setdefault(gk, []).append((enc, x, lat, tag, cn))
+                groups.setdefault(gk, []).append((enc, x, lat, tag, definer(probs[k], "latentfn")))
                 if sum(1 for v in (gk if fam.kind != "set" else [1] * len(set(gk))) if v) > 1:
                     ctx.nontriv(key)
                 if ctx.evaluations % 997 == 20 + (len(fname) * 37 + oi * 11) % 200:
@@ -308,8 +321,8 @@ def run_ctor(ctx, fname, n, variant, oi, part, focus=None):
             continue
         cn = fam.classes[enc]
         decs = [(k, x, t) for k, x, t in decisions_for(fam, enc, U.N, U.d, tier)]
-        if not focus and tier == "quick":
-            decs = thin(decs)
+        if not focus:
+            decs = thin(decs) if tier == "quick" else stride(decs, EVAL_DECISIONS_MAX)
         byk = {}
         for k, x, t in decs:
             byk.setdefault(k, []).append(x)
@@ -327,11 +340,23 @@ def run_ctor(ctx, fname, n, variant, oi, part, focus=None):
                     continue
                 prob, spec = built[0]
                 ctx.transitions += 1
-                ctx.guard(lambda: check_eval(ctx, cn, prob, spec, enc, k, xs, case, focus), case=case, sig_prefix=cn + ".evalfn:")
+                ctx.guard(lambda: check_eval(ctx, cn, prob, spec, enc, k, xs, case, focus), case=case, sig_prefix=definer(prob, "evalfn") + ".evalfn:")
                 for blk in ("obj", "ineqcv", "eqcv"):
                     ctx.flag(f"trans:{blk}:{spec[blk][3]}")
                     ctx.flag(f"wtform:{blk}:{spec[blk][4]}")
                     ctx.flag(f"block:{blk}:{'empty' if spec[blk][2] == 0 else 'nonempty'}")
+
+
+EVAL_DECISIONS_MAX = 300
+
+
+def stride(decs, cap):
+    """thorough tier: the (decision x configuration) product uses every s-th decision of an encoding once an encoding has
+    more than `cap` decisions (large cross spaces); every decision still sees the definition/agreement oracles."""
+    if len(decs) <= cap:
+        return decs
+    s = -(-len(decs) // cap)
+    return [d for i, d in enumerate(decs) if i % s == 0]
 
 
 def thin(decs):
@@ -340,6 +365,7 @@ def thin(decs):
 
 
 def check_eval(ctx, cn, prob, spec, enc, k, xs, case, focus):
+    ce = definer(prob, "evalfn")
     rows = []
     X = []
     for x in xs:
@@ -352,7 +378,7 @@ def check_eval(ctx, cn, prob, spec, enc, k, xs, case, focus):
         ctx.evaluations += 1
         ctx.count("layer:evalfn")
         c2 = dict(case, x=jx(x), xs=[jx(x)])
-        require(isinstance(res, tuple) and len(res) == 3, cn + ".evalfn:shape", f"evalfn returned {type(res).__name__}", c2)
+        require(isinstance(res, tuple) and len(res) == 3, ce + ".evalfn:shape", f"evalfn returned {type(res).__name__}", c2)
         ll = lat.tolist()
         xl = [float(v) for v in x]
         exp = []
@@ -360,7 +386,7 @@ def check_eval(ctx, cn, prob, spec, enc, k, xs, case, focus):
             ref, wref, ln, kind, form = spec[blk]
             e = R.weighted(wref, ref(xl, ll))
             got = aslist(res[bi])
-            require(near(got, e, rel=1e-12, abs_=1e-13), f"{cn}.evalfn:{blk}",
+            require(near(got, e, rel=1e-12, abs_=1e-13), f"{ce}.evalfn:{blk}",
                     lambda: f"{blk} block of evalfn({jx(x)}) = {got}; declared weights {wref} x {kind} transformation of the latent "
                             f"vector {ll} = {e}", c2)
             exp.append(e)
@@ -387,13 +413,14 @@ def check_eval(ctx, cn, prob, spec, enc, k, xs, case, focus):
     for nm, (o, nr) in outs.items():
         c3 = dict(case, xs=[jx(x) for x, _ in rows[:nr]], call=nm)
         site = nm.split("(")[0]
-        require(sorted(o.keys()) == sorted(keys), f"{cn}.{site}:blocks",
+        cs = definer(prob, site)
+        require(sorted(o.keys()) == sorted(keys), f"{cs}.{site}:blocks",
                 f"{nm} reported blocks {sorted(o.keys())}, the problem declares {keys} (empty constraint blocks are omitted)", c3)
         for kk in keys:
             arr = numpy.asarray(o[kk], dtype=float)
-            require(arr.ndim == 2 and arr.shape[0] == nr, f"{cn}.{site}:shape", f"{nm}[{kk}] has shape {arr.shape} for {nr} candidates", c3)
+            require(arr.ndim == 2 and arr.shape[0] == nr, f"{cs}.{site}:shape", f"{nm}[{kk}] has shape {arr.shape} for {nr} candidates", c3)
             for r in range(nr):
-                require(near(arr[r].tolist(), rows[r][1][names[kk]], rel=1e-12, abs_=1e-13), f"{cn}.{site}:row-mismatch",
+                require(near(arr[r].tolist(), rows[r][1][names[kk]], rel=1e-12, abs_=1e-13), f"{cs}.{site}:row-mismatch",
                         lambda: f"{nm}[{kk}] row {r} = {arr[r].tolist()} but evalfn({jx(rows[r][0])}) gives {rows[r][1][names[kk]]}", c3)
 
 
@@ -507,7 +534,7 @@ def run_factory(ctx, fname, n, variant, enc, focus=None):
                     c2 = dict(case, k=k, x=jx(x), xs=[jx(x)], stage="factory-latent")
                     ctx.evaluations += 1
                     got = []
-                    if ctx.guard(lambda: got.append(check_latent(ctx, fam, d, L, cn, prob, enc, x, tag, c2)), case=c2, sig_prefix=cn + ".latentfn:"):
+                    if ctx.guard(lambda: got.append(check_latent(ctx, fam, d, L, cn, prob, enc, x, tag, c2)), case=c2, sig_prefix=definer(prob, "latentfn") + ".latentfn:"):
                         ctx.traces += 1
                         ctx.outcome(digest((fname, [round(v, 9) for v in got[0]])))
                     ctx.state(digest((cn, fx.key(), fac, sorted(opt.items()), enc, x)))
